@@ -86,6 +86,7 @@ std::vector<std::string> phasesOf(const std::vector<simfs::Event> &ev) {
 }
 
 struct ProcLog {
+    std::vector<size_t> completed_calls;  // number of model points computed by this process when each of 'completed' was written
     std::vector<std::string> completed;   // main-file contents each time a write of it was completed before the kill
     std::vector<std::string> ghost;       // ... completed by the ghost after the kill (the in-progress checkpoint comes first)
     std::vector<Pt> model_calls;          // points passed to the model before the kill
@@ -198,7 +199,7 @@ public:
             if (!wasWrite || path != MAIN) return;
             auto it = F.files.find(MAIN); if (it == F.files.end()) return;
             std::string s(it->second.begin(), it->second.end());
-            if (F.frozen) L.ghost.push_back(s); else L.completed.push_back(s);
+            if (F.frozen) L.ghost.push_back(s); else { L.completed.push_back(s); L.completed_calls.push_back(L.model_calls.size()); }
         };
         makeUserGrid(grid, p, process);
         int d = grid.getNumDimensions(), outs = grid.getNumOutputs();
@@ -305,6 +306,8 @@ public:
         if (p.has("large")) { fam = p.at("large").gets("family"); st.inc("reach.large_start_grid_runs"); }
         Hash sh; sh.s(fam); sh.s(mk.gets("rule")); sh.i(mk.geti("order")); sh.i(d); sh.i(budget); sh.i(p.geti("jobs")); sh.i(p.geti("batch"));
         std::vector<std::string> truth;  // every checkpoint completed so far, across processes, in order
+        std::vector<long> truthKnown;    // ... and the number of samples computed (by any process) when it was written
+        long inprogressKnown = 0, knownAtStart = p.has("large") ? (long)largeSize(p.at("large").gets("family")) : 0, parkedAtStart = -1, maxParked = 0; bool parkedUnknown = false; // parkedAtStart -1: unknown
         std::string inprogress;           // the checkpoint being written when the previous process was killed, as its ghost completed it
         std::string prevKillPhase, prevKillEvent;
         std::map<std::string, simfs::Bytes> disk;
@@ -349,14 +352,16 @@ public:
                 std::string lastCompleted = truth.empty() ? std::string() : truth.back();
                 if (!L.start_state.empty()) {
                     std::string rec;
-                    if (!lastCompleted.empty() && L.start_state == expectedStart(lastCompleted)) { rec = "last-completed"; st.inc("reach.recovered_from_last_completed"); }
-                    else if (!inprogress.empty() && L.start_state == expectedStart(inprogress)) { rec = "in-progress"; st.inc("reach.recovered_from_checkpoint_complete_at_kill"); }
+                    auto parkedIn = [&](const std::string &bytes, long known) -> long { Decoded D = decode(bytes, d); return D.ok ? std::max<long>(0, known - (long)D.loaded.size() - (long)D.stored.size()) : -1; };
+                    if (!lastCompleted.empty() && L.start_state == expectedStart(lastCompleted)) { rec = "last-completed"; st.inc("reach.recovered_from_last_completed"); knownAtStart = truthKnown.back(); parkedAtStart = parkedIn(lastCompleted, knownAtStart); }
+                    else if (!inprogress.empty() && L.start_state == expectedStart(inprogress)) { rec = "in-progress"; st.inc("reach.recovered_from_checkpoint_complete_at_kill"); knownAtStart = inprogressKnown; parkedAtStart = parkedIn(inprogress, knownAtStart); }
                     else {
                         bool older = false; for (auto &tt : truth) if (L.start_state == expectedStart(tt)) older = true;
                         TasmanianSparseGrid fresh; makeUserGrid(fresh, p, (int)proc); fresh.beginConstruction();
                         std::ostringstream os; fresh.write(os, TasGrid::mode_binary);
                         rec = older ? "older" : (L.start_state == os.str() ? "scratch" : "garbage");
                     }
+                    if (rec == "last-completed" || rec == "in-progress") { if (parkedAtStart < 0) parkedUnknown = true; else maxParked = std::max(maxParked, parkedAtStart); }
                     std::string where = "killed in phase '" + prevKillPhase + "' (" + prevKillEvent + ")";
                     if (rec == "scratch" && !lastCompleted.empty()) { out.fail("recovered-scratch", "C17/" + mode + "/" + prevKillPhase + "/recovered:scratch", where + "; " + std::to_string(truth.size()) + " checkpoint(s) had completed, but the restart found no usable file and started from the user's grid"); return out; }
                     if (rec == "older") { out.fail("recovered-older", "C17/" + mode + "/" + prevKillPhase + "/recovered:older", where + "; the restart continued from a checkpoint older than the last completed one"); return out; }
@@ -380,12 +385,15 @@ public:
                     }
                 }
             }
-            for (auto &s : L.completed) truth.push_back(s);
+            for (size_t k = 0; k < L.completed.size(); k++) { truth.push_back(L.completed[k]); truthKnown.push_back(knownAtStart + (long)L.completed_calls[k]); }
+            inprogressKnown = knownAtStart + (long)L.model_calls.size();
+            if (getenv("C17_DEBUG")) { fprintf(stderr, "DEBUG proc %zu: knownAtStart %ld parkedAtStart %ld model_calls %zu completed %zu killed %d final_loaded %d\n", proc, knownAtStart, parkedAtStart, L.model_calls.size(), L.completed.size(), (int)L.killed, grid.getNumLoaded());
+                for (size_t k = 0; k < L.completed.size(); k++) { Decoded D = decode(L.completed[k], d); fprintf(stderr, "   ckpt %zu: calls %zu loaded %zu stored %zu\n", k, L.completed_calls[k], D.loaded.size(), D.stored.size()); } }
             // a checkpoint whose last byte reached the file before the kill is complete even if the file was not closed yet
             inprogress.clear();
             if (L.killed && !L.ghost.empty()) {
                 auto im = F.image.find(MAIN);
-                if (im != F.image.end() && std::string(im->second.begin(), im->second.end()) == L.ghost[0]) { truth.push_back(L.ghost[0]); st.inc("reach.kill_after_last_byte_before_close"); }
+                if (im != F.image.end() && std::string(im->second.begin(), im->second.end()) == L.ghost[0]) { truth.push_back(L.ghost[0]); truthKnown.push_back(inprogressKnown); st.inc("reach.kill_after_last_byte_before_close"); }
             }
             prevKillPhase = killPhase;
             prevKillEvent = L.killed ? (F.crash_event_kind + " " + F.crash_event_path + (F.crash_event_kind.rfind("write", 0) == 0 ? ", torn after " + std::to_string(F.crash_torn_at) + " of " + std::to_string(F.crash_event_bytes) + " bytes" : "")) : "";
@@ -397,7 +405,16 @@ public:
                 std::vector<double> lp = grid.getLoadedPoints(); const double *lv = grid.getLoadedValues();
                 std::vector<double> mv = modelValues(lp, grid.getNumDimensions(), outs);
                 for (size_t i = 0; i < mv.size(); i++) if (memcmp(&mv[i], &lv[i], 8) != 0) { out.fail("final-values", "C17/" + mode + "/final-values", "after the final run loaded point " + std::to_string(i / (size_t)outs) + " does not carry the model value computed for it"); return out; }
-                if (grid.getNumLoaded() > budget) { out.fail("budget", "C17/" + mode + (proc > 0 ? "/budget/after-restart" : "/budget/single-run"), "the final grid holds " + std::to_string(grid.getNumLoaded()) + " loaded points, the budget was " + std::to_string(budget)); return out; }
+                if (grid.getNumLoaded() > budget) {
+                    // known finding: a restart does not count the samples parked inside the recovered grid; every restart r can take the number of
+                    // known samples to budget + parked_r, so the final excess is at most the largest parked count met at a restart.
+                    // Anything beyond it (e.g. stored samples not counted) is a different violation.
+                    long excess = grid.getNumLoaded() - budget;
+                    std::string sig = proc == 0 ? "/budget/single-run" : (parkedUnknown || excess <= maxParked) ? "/budget/after-restart" : "/budget/after-restart-beyond-parked";
+                    out.fail("budget", "C17/" + mode + sig, "the final grid holds " + std::to_string(grid.getNumLoaded()) + " loaded points, the budget was " + std::to_string(budget) +
+                             (proc > 0 ? " (the checkpoints the restarts continued from held at most " + std::to_string(maxParked) + " sample(s) parked inside the grid)" : ""));
+                    return out;
+                }
                 if (grid.getNumLoaded() == 0) st.inc("note.final_grid_has_no_loaded_points");
                 st.inc("reach.process_completed");
                 out.trace.i(grid.getNumLoaded());
